@@ -12,7 +12,7 @@ Oracle: integer-only transcription of the RFC pseudo-code (`rfc_decode`).  Monit
 import logging
 import random
 
-from vlib import engine, netsynth as ns
+from vlib import e2e, engine, monitors, netsynth as ns, quicsynth, scene, tcpcap
 
 
 def rfc_decode(largest, truncated, nbits):
@@ -98,18 +98,24 @@ def build(tier, seed):
                     cases.append({"id": f"direct-{'s' if isserver else 'c'}-sp{si}-len{ln}-p{part}", "kind": "direct", "isserver": isserver, "space": si, "len": ln, "part": part})
     for i in range(400 if thorough else 32):
         cases.append({"id": f"history-{i}", "kind": "history", "i": i})
+    for i in range(4000 if thorough else 240):
+        cases.append({"id": f"e2e-{i}", "kind": "e2e", "i": i})
 
     def evalfn(case):
         logging.disable(logging.CRITICAL)
         rng = random.Random(engine.subseed("C16", seed, case["id"]))
         if case["kind"] == "direct":
             return eval_direct(case, rng, thorough)
+        if case["kind"] == "e2e":
+            return eval_e2e(case, rng)
         return eval_history(case, rng, thorough)
 
     return dict(cases=cases, evalfn=evalfn, level="exploration", min_nontrivial=500,
                 rule="direct: for each direction x packet type x encoded length 1..4: largest in {0..3, 2^k+-2 for k=7..61, random}, truncated "
                      "exhaustively within +-3 of 0, half window, window, expected, expected+-half window, expected+-window, plus random; history: "
-                     "random histories with gaps and bounded reordering in six spaces interleaved. A class is (direction, space, length, "
+                     "random histories with gaps and bounded reordering in six spaces interleaved; e2e: real runs on generated connections (Retry, 0-RTT, coalescing, packet-number starts "
+                     "up to 2^31, gaps, every encoded length) with the monitor on get_full_packet_number comparing every reconstructed number with the sender's true one - this "
+                     "covers what happens to the per-space state at connection events (Retry, key change, CID switch). A class is (direction, space, length, "
                      "bit length of largest, RFC branch taken); non-trivial = the real function returned and was compared",
                 assumptions=["rfc_decode is a faithful integer transcription of RFC 9000 A.3", "`largest` state of a space is reachable as "
                              "QuicSession.packet_number_server/client (anchors.state of the property)"])
@@ -213,3 +219,36 @@ def eval_history(case, rng, thorough):
     else:
         res["v"] = "held"
     return res
+
+
+def eval_e2e(case, rng):
+    """the session's own history of packet-number spaces in a real run: connection events (Retry, coalesced packets of three spaces in one datagram, 0-RTT before
+    1-RTT in the same space, CID switch, key update) must leave the per-space 'largest' exactly as RFC 9000 12.3 / 17.2.5.3 say"""
+    s = quicsynth.random_qspec(rng, napp=rng.choice([2, 5, 9]))
+    s.retry = rng.random() < 0.5
+    s.pn_len_mode = rng.choice(["min", "min", "rand"])
+    for d in "cs":
+        for sp_ in ("init", "hs", "app"):
+            if rng.random() < 0.6:
+                s.pn_start[(d, sp_)] = rng.choice([255, 256, 300, 65535, 65536, 70000, 1 << 24, (1 << 24) + 77, 827801342, (1 << 31) - 9, rng.randrange(256, 1 << 31)])
+    qc = quicsynth.build_qconn(s, rng)
+    ep = tcpcap.random_ep(rng)
+    fl = scene.quic_flow(qc, ep)
+    items = scene.stamp(scene.merge([fl], rng, "concat"), rng)
+    mon = monitors.QuicMonitor()
+    res, files, argv = e2e.run_capture(scene.capture(items), scene.keylog_text([fl], rng), child_setup=mon.install)
+    out = {"cls": ["e2e", "retry" if s.retry else "", s.pn_len_mode, "0rtt" if s.zero_rtt else "", min(max(s.pn_start.values(), default=0).bit_length() // 8, 4)],
+           "tags": ["e2e:retry" if s.retry else "e2e:noretry"], "sample": {"case": case["id"], "spec": quicsynth.describe(s)}}
+    fail = e2e.run_failed(res)
+    if fail:
+        return dict(out, v="inconclusive" if fail.startswith("INCONCLUSIVE") else "violated", msg=fail, files=files)
+    msgs, cnt = mon.verdict(res.events, qc)
+    msgs = [m for m in msgs if "packet number" in m or "looked at" in m]
+    out["mon"] = {"get_full_packet_number.compared": cnt.get("quic.pn_compared", 0)}
+    out["units"] = max(1, cnt.get("quic.pn_compared", 0))
+    out["nontrivial"] = cnt.get("quic.pn_compared", 0) > 3
+    if msgs:
+        return dict(out, v="violated", msg=("Retry; " if s.retry else "") + "; ".join(msgs[:2]), files=files)
+    if cnt.get("quic.pn_compared", 0) == 0:
+        return dict(out, v="inconclusive", msg="the packet-number monitor observed nothing", nontrivial=False)
+    return dict(out, v="held")
